@@ -350,7 +350,7 @@ theorem loop_within (x0 : ExtRat) (b0 : Bracket ExtRat) : ∀ (fuel : Nat) (s : 
       · exact ⟨done _ _ _ rfl, Or.inr (Or.inl rfl)⟩
       · exact step _ hw1 ⟨[], by simp, fun c hc => by cases hc⟩
     · rw [e]
-      exact ⟨done _ _ _ rfl, Or.inl rfl⟩
+      exact ⟨⟨[], by simp [St.result], fun c hc => by cases hc⟩, Or.inl rfl⟩
     · rw [e]
       dsimp only
       have hy : Inside b0 (TfelVerif.C09.iterate extNum (updateBounds extNum s.b s.x s.fv) y) := hw1.iterate y
